@@ -78,6 +78,12 @@ class Tr:
                 r = 'len_' + self.ref(a[0])
                 self.params.add(r)
                 return r
+            if f in ('bytes_to_int', 'bytes_to_signed_int') and len(a) == 1 and isinstance(a[0], ast.Subscript) \
+                    and isinstance(a[0].slice, ast.Slice):
+                lo, hi = a[0].slice.lower, a[0].slice.upper          # a 4-byte header word: its offset
+                if isinstance(lo, ast.Constant) and isinstance(hi, ast.Constant) and hi.value - lo.value == 4:
+                    return str(lo.value)
+                raise TranslationError('header word that is not 4 constant bytes')
             if f == 'pad' and len(a) == 2:                   # utils.pad, translated above as Gen.pad
                 return f'(pad {self.expr(a[0])} {self.expr(a[1])})'
             raise TranslationError(f'call of {f}')
@@ -186,6 +192,35 @@ def _select(fn, sel):
         if part is None:
             raise TranslationError(f'slice without {sel[4]} bound')
         return part
+    if sel[0] == 'wslot':
+        # ('wslot', buffer name, nth, width): offset of the nth constant-slice store into the buffer
+        hits = [n.targets[0] for n in ast.walk(fn) if isinstance(n, ast.Assign) and len(n.targets) == 1
+                and isinstance(n.targets[0], ast.Subscript) and isinstance(n.targets[0].value, ast.Name)
+                and n.targets[0].value.id == sel[1] and isinstance(n.targets[0].slice, ast.Slice)
+                and isinstance(n.targets[0].slice.lower, ast.Constant) and isinstance(n.targets[0].slice.upper, ast.Constant)]
+        hits.sort(key=lambda n: (n.lineno, n.col_offset))
+        if len(hits) <= sel[2]:
+            raise TranslationError(f'store #{sel[2]} into {sel[1]} not found')
+        lo, hi = hits[sel[2]].slice.lower.value, hits[sel[2]].slice.upper.value
+        if hi - lo != sel[3]:
+            raise TranslationError(f'store #{sel[2]} into {sel[1]} is {hi - lo} bytes wide, not {sel[3]}')
+        return ast.Constant(lo)
+    if sel[0] == 'assign_elt':
+        hits = [n.value for n in ast.walk(fn) if isinstance(n, ast.Assign) and len(n.targets) == 1
+                and isinstance(n.targets[0], ast.Name) and n.targets[0].id == sel[1] and isinstance(n.value, ast.Tuple)]
+        hits.sort(key=lambda n: (n.lineno, n.col_offset))
+        if len(hits) <= sel[2] or len(hits[sel[2]].elts) <= sel[3]:
+            raise TranslationError(f'tuple assigned to {sel[1]} #{sel[2]} element {sel[3]} not found')
+        return hits[sel[2]].elts[sel[3]]
+    if sel[0] == 'return':
+        hits = [n.value for n in ast.walk(fn) if isinstance(n, ast.Return) and n.value is not None]
+        hits.sort(key=lambda n: (n.lineno, n.col_offset))
+        if len(hits) <= sel[1]:
+            raise TranslationError(f'return #{sel[1]} not found')
+        v = hits[sel[1]]
+        if isinstance(v, ast.Call) and v.args and len(sel) > 2:
+            return v.args[sel[2]]
+        return v
     if sel[0] == 'ifassign':
         # ('ifassign', target, nth): the test of the if statement whose body assigns `target`
         hits = [n for n in ast.walk(fn) if isinstance(n, ast.If) and any(
@@ -311,6 +346,49 @@ SPEC = [
     ('io_t_store', 'conversion_utils.py', 'io_thread_func', ('assign', 't_store', 0), 'Nat'),
     ('io_t_xl', 'conversion_utils.py', 'io_thread_func', ('tuple', 't_xl', 0), 'Nat'),
     ('io_t_il', 'conversion_utils.py', 'io_thread_func', ('tuple', 't_il', 0), 'Nat'),
+    # the fixed header words: writer (make_header) and reader
+    ('w_header_blocks', 'conversion_utils.py', 'make_header', ('wslot', 'buffer', 0, 4), 'Nat'),
+    ('w_n_samples', 'conversion_utils.py', 'make_header', ('wslot', 'buffer', 1, 4), 'Nat'),
+    ('w_z_start', 'conversion_utils.py', 'make_header', ('wslot', 'buffer', 2, 4), 'Nat'),
+    ('w_interval', 'conversion_utils.py', 'make_header', ('wslot', 'buffer', 3, 4), 'Nat'),
+    ('w_n_xl', 'conversion_utils.py', 'make_header', ('wslot', 'buffer', 4, 4), 'Nat'),
+    ('w_n_il', 'conversion_utils.py', 'make_header', ('wslot', 'buffer', 5, 4), 'Nat'),
+    ('w_xl0', 'conversion_utils.py', 'make_header', ('wslot', 'buffer', 6, 4), 'Nat'),
+    ('w_il0', 'conversion_utils.py', 'make_header', ('wslot', 'buffer', 7, 4), 'Nat'),
+    ('w_dxl', 'conversion_utils.py', 'make_header', ('wslot', 'buffer', 8, 4), 'Nat'),
+    ('w_dil', 'conversion_utils.py', 'make_header', ('wslot', 'buffer', 9, 4), 'Nat'),
+    ('w_dxl_irregular', 'conversion_utils.py', 'make_header', ('wslot', 'buffer', 10, 4), 'Nat'),
+    ('w_dil_irregular', 'conversion_utils.py', 'make_header', ('wslot', 'buffer', 11, 4), 'Nat'),
+    ('w_rate', 'conversion_utils.py', 'make_header', ('wslot', 'buffer', 12, 4), 'Nat'),
+    ('w_b0', 'conversion_utils.py', 'make_header', ('wslot', 'buffer', 13, 4), 'Nat'),
+    ('w_b1', 'conversion_utils.py', 'make_header', ('wslot', 'buffer', 14, 4), 'Nat'),
+    ('w_b2', 'conversion_utils.py', 'make_header', ('wslot', 'buffer', 15, 4), 'Nat'),
+    ('w_data_blocks', 'conversion_utils.py', 'make_header', ('wslot', 'buffer', 16, 4), 'Nat'),
+    ('w_array_bytes', 'conversion_utils.py', 'make_header', ('wslot', 'buffer', 17, 4), 'Nat'),
+    ('w_n_arrays', 'conversion_utils.py', 'make_header', ('wslot', 'buffer', 18, 4), 'Nat'),
+    ('w_tracecount', 'conversion_utils.py', 'make_header', ('wslot', 'buffer', 19, 4), 'Nat'),
+    ('w_version', 'conversion_utils.py', 'make_header', ('wslot', 'buffer', 20, 4), 'Nat'),
+    ('w_table', 'conversion_utils.py', 'make_header', ('wslot', 'buffer', 21, 1068), 'Nat'),
+    ('w_array_bytes_value', 'conversion_utils.py', 'make_header', ('assign', 'header_entry_length_bytes', 1), 'Nat'),
+    ('r_n_samples', 'read.py', 'SgzReader._parse_dimensions', ('assign', 'n_samples', 0), 'Nat'),
+    ('r_n_xl', 'read.py', 'SgzReader._parse_dimensions', ('assign', 'n_xlines', 0), 'Nat'),
+    ('r_n_il', 'read.py', 'SgzReader._parse_dimensions', ('assign', 'n_ilines', 0), 'Nat'),
+    ('r_rate', 'read.py', 'SgzReader._parse_dimensions', ('assign', 'rate', 0), 'Nat'),
+    ('r_b0', 'read.py', 'SgzReader._parse_dimensions', ('assign_elt', 'blockshape', 0, 0), 'Nat'),
+    ('r_b1', 'read.py', 'SgzReader._parse_dimensions', ('assign_elt', 'blockshape', 0, 1), 'Nat'),
+    ('r_b2', 'read.py', 'SgzReader._parse_dimensions', ('assign_elt', 'blockshape', 0, 2), 'Nat'),
+    ('r_interval', 'read.py', 'SgzReader._parse_coordinates', ('assign', 'sample_rate_ms', 0), 'Nat'),
+    ('r_z_start', 'read.py', 'SgzReader._parse_coordinates', ('assign', 'zmin', 0), 'Nat'),
+    ('r_xl0', 'read.py', 'SgzReader._parse_coordinates', ('callarg', 'gen_coord_list', 1, 0), 'Nat'),
+    ('r_dxl', 'read.py', 'SgzReader._parse_coordinates', ('callarg', 'gen_coord_list', 1, 1), 'Nat'),
+    ('r_il0', 'read.py', 'SgzReader._parse_coordinates', ('callarg', 'gen_coord_list', 2, 0), 'Nat'),
+    ('r_dil', 'read.py', 'SgzReader._parse_coordinates', ('callarg', 'gen_coord_list', 2, 1), 'Nat'),
+    ('r_data_blocks', 'read.py', 'SgzReader._parse_data_sizes', ('assign', 'compressed_data_diskblocks', 0), 'Nat'),
+    ('r_array_bytes', 'read.py', 'SgzReader._parse_data_sizes', ('assign', 'header_entry_length_bytes', 0), 'Nat'),
+    ('r_n_arrays', 'read.py', 'SgzReader._parse_data_sizes', ('assign', 'n_header_arrays', 0), 'Nat'),
+    ('r_header_blocks', 'read.py', 'SgzReader.__init__', ('assign_attr', 'n_header_blocks', 0), 'Nat'),
+    ('r_tracecount', 'read.py', 'SgzReader.__init__', ('assign_attr', 'tracecount', 0), 'Nat'),
+    ('r_version', 'read.py', 'SgzReader.get_file_version', ('return', 0, 0), 'Nat'),
     # loader.py, 2D
     ('trace_range_offset', 'loader.py', 'SgzLoader2d.read_and_decompress_trace_range', ('assign', 'block_offset', 0), 'Nat'),
     ('trace_range_length', 'loader.py', 'SgzLoader2d.read_and_decompress_trace_range', ('callarg', '_get_compressed_bytes', 0, 1), 'Nat'),
